@@ -1,17 +1,18 @@
 (* Extract.v -- extraction of the executable specs and models to OCaml (ExtrOcamlBasic only; Z stays
    the extracted binary datatype; one OCaml module per Coq module).  Run from ocaml/gen. *)
 From Coq Require Import ExtrOcamlBasic ZArith List String FMapPositive.
-From HexVerif Require Import WMap Isa SimModel AsmModel AsmLayout AsmSpec AsmStatements.
-From HexVerif Require Import Vexp.
+From HexVerif Require Import WMap Isa SimModel AsmModel AsmLayout AsmSpec AsmStatements CliModel.
+From HexVerif Require Import Vexp RtlSem.
 From HexVerif.gen Require RtlSv RtlV RtlVSynth RtlHex.
 From HexVerif Require Import XAst XSem IsaMon.
 Extraction Language OCaml.
 Separate Extraction WMap.rd WMap.wr WMap.zero WMap.empty WMap.load_words PositiveMap.elements
   Isa.step Isa.run Isa.boot Isa.words_of_bytes
-  Vexp.eval RtlSv.design RtlV.design RtlVSynth.design RtlHex.design
+  Vexp.eval RtlSv.design RtlV.design RtlVSynth.design RtlHex.design RtlSem.cycle RtlSem.outs RtlSem.wire RtlSem.getv
   SimModel.step SimModel.run SimModel.init SimModel.arch_of
   AsmModel.lex AsmModel.parse AsmLayout.assemble_directives AsmLayout.assemble AsmLayout.diag_location AsmLayout.codegen AsmLayout.emit_bin
   AsmLayout.num_nibbles AsmLayout.enc_size AsmLayout.emit_instr AsmLayout.instr_len
-  AsmStatements.struct_listing AsmSpec.check_image AsmSpec.check_symtab AsmSpec.check_listing AsmSpec.decode AsmSpec.bytes_map
+  AsmStatements.struct_listing CliModel.hexasm_main CliModel.xcmp_main CliModel.hexsim_main CliModel.xrun_main
+  AsmSpec.check_image AsmSpec.check_symtab AsmSpec.check_listing AsmSpec.decode AsmSpec.bytes_map
   XSem.run XSem.run_fuel XSem.default_fuel XSem.default_steps XSem.default_depth
   IsaMon.accesses IsaMon.acc_ok IsaMon.state_ok IsaMon.mon_ok.
